@@ -1,4 +1,5 @@
 import BeyondVerif.Lemmas.Tle
+import BeyondVerif.Lemmas.TleWrite
 
 /-!
 # C12 — TLE text round-trips and is validated
@@ -313,6 +314,107 @@ theorem float_unfloat_id (neg : Bool) (m5 : Nat) (scale : Int) (h1 : 10000 ≤ m
 example : tleFloat "-11606-4".toList = .ok ⟨true, 11606, 9⟩ ∧ unfloat (.val true 11606 (-4)) = "-11606-4".toList := by
   constructor <;> rfl
 
+
+/-! ## Clause 2 — any orbit that can be written yields 69-character lines with correct checksums -/
+
+
+/-- a 68-character body whose characters all have a checksum value, followed by its check digit, is a valid line -/
+theorem lineOk_of_body (body : Str) (a : Char) (t : Str) (hb : body = a :: t) (ha : isWs a = false)
+    (hl : body.length = 68) (hok : ∀ c ∈ body, okc c = true) :
+    ∃ c, c < 10 ∧ checksum body = some c ∧ LineOk (body ++ natStr c) ∧ (body ++ natStr c).length = 69 ∧
+      strip (body ++ natStr c) = body ++ natStr c := by
+  obtain ⟨s, hs⟩ := sumVals_some body hok
+  have hck : checksum body = some (s % 10) := by
+    unfold checksum
+    simp only [Generated.Tle.ckLen]
+    rw [List.take_of_length_le (by omega), hs]; rfl
+  have hc10 : s % 10 < 10 := by omega
+  refine ⟨s % 10, hc10, hck, ?_⟩
+  rw [natStr_lt10 hc10]
+  have hlen : (body ++ [digitChar (s % 10)]).length = 69 := by simp [hl]
+  have hstrip : strip (body ++ [digitChar (s % 10)]) = body ++ [digitChar (s % 10)] := by
+    apply strip_of_ends (a := a) (z := digitChar (s % 10)) _ _ ha (isWs_digitChar hc10)
+    · rw [hb]; simp
+    · rw [hlen, List.getElem?_append_right (by omega), hl]; simp
+  refine ⟨⟨by rw [hstrip]; exact hlen, s % 10, ?_, ?_⟩, hlen, hstrip⟩
+  · rw [hstrip]
+    unfold checksum at hck ⊢
+    simp only [Generated.Tle.ckLen] at hck ⊢
+    rw [List.take_of_length_le (by omega)] at hck
+    rw [List.take_left' hl]; exact hck
+  · rw [hstrip, natStr_lt10 hc10, slice_one, List.getElem?_append_right (by omega), hl]; simp
+
+
+theorem sum_map_length_flatten (L : List Str) : L.flatten.length = (L.map List.length).sum := by
+  induction L with
+  | nil => rfl
+  | cons x xs ih => simp [ih]
+
+/-- what `from_orbit` hands to `cls(...)`: the bodies followed by their check digits -/
+theorem writeRec_eq (r : Rec) (h : InRange r) :
+    ∃ c1 c2, c1 < 10 ∧ c2 < 10 ∧ checksum (chunks1 r).flatten = some c1 ∧ checksum (chunks2 r).flatten = some c2 ∧
+      LineOk ((chunks1 r).flatten ++ natStr c1) ∧ LineOk ((chunks2 r).flatten ++ natStr c2) ∧
+      ((chunks1 r).flatten ++ natStr c1).length = 69 ∧ ((chunks2 r).flatten ++ natStr c2).length = 69 ∧
+      strip ((chunks1 r).flatten ++ natStr c1) = (chunks1 r).flatten ++ natStr c1 ∧
+      strip ((chunks2 r).flatten ++ natStr c2) = (chunks2 r).flatten ++ natStr c2 ∧
+      writeRec r = .ok (if r.name.isEmpty then [(chunks1 r).flatten ++ natStr c1, (chunks2 r).flatten ++ natStr c2]
+        else [r.name, (chunks1 r).flatten ++ natStr c1, (chunks2 r).flatten ++ natStr c2]) := by
+  have hl1 : (chunks1 r).flatten.length = 68 := by rw [sum_map_length_flatten, chunks1_lengths r h]; rfl
+  have hl2 : (chunks2 r).flatten.length = 68 := by rw [sum_map_length_flatten, chunks2_lengths r h]; rfl
+  have hb1 : (chunks1 r).flatten = '1' :: ((chunks1 r).flatten.drop 1) := by simp [chunks1]
+  have hb2 : (chunks2 r).flatten = '2' :: ((chunks2 r).flatten.drop 1) := by simp [chunks2]
+  obtain ⟨c1, h1, hk1, ok1, len1, st1⟩ := lineOk_of_body _ '1' _ hb1 (by decide) hl1 (okc_chunks1 r h)
+  obtain ⟨c2, h2, hk2, ok2, len2, st2⟩ := lineOk_of_body _ '2' _ hb2 (by decide) hl2 (okc_chunks2 r h)
+  refine ⟨c1, c2, h1, h2, hk1, hk2, ok1, ok2, len1, len2, st1, st2, ?_⟩
+  unfold writeRec
+  have he : r.ecc7 / 10000000 = 0 := by have := h.ecc; omega
+  simp only [he, natStr_zero, ne_eq, not_true_eq_false, if_false, render_fmt1, render_fmt2, hk1, hk2]
+
+/-- **any orbit that can be written yields lines of exactly 69 characters with correct checksums**: for EVERY record
+inside the ranges of the format, `from_orbit` assembles two lines of 69 characters each, free of surrounding blanks,
+starting with `1 ` and `2 `, whose 69th character is the modulo-10 checksum of the first 68 — i.e. a text that
+`_check_validity` accepts. -/
+theorem written_lines_valid (r : Rec) (h : InRange r) :
+    ∃ l1 l2, writeRec r = .ok (if r.name.isEmpty then [l1, l2] else [r.name, l1, l2]) ∧
+      l1.length = 69 ∧ l2.length = 69 ∧ LineOk l1 ∧ LineOk l2 ∧ checkValidity [l1, l2] = .ok () := by
+  obtain ⟨c1, c2, _, _, _, _, ok1, ok2, len1, len2, _, _, hw⟩ := writeRec_eq r h
+  refine ⟨_, _, hw, len1, len2, ok1, ok2, ?_⟩
+  rw [valid_iff]
+  refine ⟨_, _, [], rfl, ?_, ?_, ?_⟩
+  · have : (chunks1 r).flatten ++ natStr c1 = '1' :: ' ' :: (((chunks1 r).flatten ++ natStr c1).drop 2) := by simp [chunks1]
+    rw [this, lstrip_cons_of_not_ws (by decide)]; rfl
+  · have : (chunks2 r).flatten ++ natStr c2 = '2' :: ' ' :: (((chunks2 r).flatten ++ natStr c2).drop 2) := by simp [chunks2]
+    rw [this, lstrip_cons_of_not_ws (by decide)]; rfl
+  · intro l hl
+    simp at hl
+    rcases hl with rfl | rfl
+    · exact ok1
+    · exact ok2
+
+
+def issRec : Rec :=
+  { name := "ISS (ZARYA)".toList, norad := 25544, cospar := "98067A".toList, yy := 8, day8 := 26451782528, ndotNeg := true,
+    ndot8 := 2182, ndd := .zero, bstar := .val true 11606 (-4), elnb := 2927, inc4 := 516416, raan4 := 2474627, ecc7 := 6703,
+    argp4 := 1305360, ma4 := 3250288, mm8 := 1572125391, revs := 56353 }
+
+/-- the reference TLE's record is inside the ranges -/
+theorem issRec_inRange : InRange issRec where
+  norad := by decide
+  cospar := Or.inr ⟨98, "067A".toList, by decide, by decide, by decide, by decide, by decide⟩
+  yy := by decide
+  day := by decide
+  ndot := by decide
+  ndd := Or.inl rfl
+  bstar := Or.inr ⟨true, 11606, -4, rfl, by decide, by decide, by decide, by decide⟩
+  elnb := by decide
+  inc := by decide
+  raan := by decide
+  ecc := by decide
+  argp := by decide
+  ma := by decide
+  mm := by decide
+  revs := by decide
+  name := Or.inr ⟨by decide, by decide, by decide⟩
 
 /-! ## Clause 4 — a multi-TLE text yields exactly its valid entries
 
